@@ -199,6 +199,30 @@ def run(ctx: Ctx):
     ok = all(x in bt for x in ("node.up = col.up", "node.down = col", "col.up.down = node", "col.up = node", "col.size += 1"))
     ctx.ob("C07-O4", "R15 INVERSE-PAIR", build, "cell insertion appends the node at the bottom of its column and counts it", ok, "", node=build.node)
 
+    # the row id stored in a node is the position of that row in the caller's matrix (the solution is a tuple of them)
+    mk = [n for n in own_nodes(build.node) if isinstance(n, ast.Call) and ast.unparse(n.func) == "_Node" and any(k.arg == "row" for k in n.keywords)]
+    ctx.floor("row node constructions in _build_links", len(mk), 1)
+
+    def length_preserving(e, depth=0):
+        """`matrix`, or a name whose every definition maps the rows of such a list one-to-one (no filter)"""
+        if isinstance(e, ast.Name) and e.id == "matrix":
+            return not any(isinstance(x, ast.Name) and x.id == "matrix" and isinstance(x.ctx, ast.Store) for x in ast.walk(build.node))
+        if isinstance(e, ast.Name) and depth < 3:
+            defs = [d.value for d in own_nodes(build.node) if isinstance(d, ast.Assign) and ast.unparse(d.targets[0]) == e.id]
+            return bool(defs) and all(isinstance(d, ast.ListComp) and len(d.generators) == 1 and not d.generators[0].ifs and length_preserving(d.generators[0].iter, depth + 1) for d in defs)
+        return False
+
+    for c in mk:
+        rv = next(k.value for k in c.keywords if k.arg == "row")
+        lp = bcfg.stmt_node_containing(c).loop
+        idx_loop = None
+        while lp is not None:
+            if lp.kind == "for" and isinstance(lp.ast.target, ast.Tuple) and ast.unparse(lp.ast.target.elts[0]) == ast.unparse(rv):
+                idx_loop = lp.ast
+            lp = lp.loop
+        ok = idx_loop is not None and isinstance(idx_loop.iter, ast.Call) and ast.unparse(idx_loop.iter.func) == "enumerate" and len(idx_loop.iter.args) == 1 and length_preserving(idx_loop.iter.args[0])
+        ctx.ob("C07-O4", "R5 PAIRING", build, "the row id stored in each node is the row's index in the caller's matrix", ok, f"`row={ast.unparse(rv)}` is bound by `{ast.unparse(idx_loop.iter) if idx_loop is not None else '?'}`: enumerating a filtered or re-ordered copy renumbers the rows, and the reported selection no longer names rows of the input", node=c)
+
     # ---- O5 immutability / determinism
     muts = param_mutations(ctx.repo, api, {"matrix", "columns", "secondary"})
     ctx.ob("C07-O5", "R17 PARAM-IMMUTABLE", api, "matrix / columns / secondary are never mutated (through _build_links)", not muts, "; ".join(f"{g.qualname}: {k} on {p} at line {n.lineno}" for g, p, k, n in muts), node=api.node)
@@ -297,6 +321,19 @@ def _v_optimal_with_cut(tree):
     M.replace_expr(g, lambda e: isinstance(e, ast.IfExp) and M.src_has(e, "Status.FEASIBLE"), M.expr("Status.OPTIMAL"))
 
 
+def _v_rows_renumbered(tree):
+    g = M.find_func(tree, "_build_links")
+    M.replace_stmt(g, lambda s: isinstance(s, ast.For) and M.src_is(s.iter, "enumerate(matrix)"), lambda s: M.stmts("rows = [row for row in matrix if any(row)]") + [s])
+    M.replace_expr(g, lambda e: M.src_is(e, "enumerate(matrix)"), M.expr("enumerate(rows)"))
+
+
+def _t_rows_sparse_view(tree):
+    """equally valid: a one-to-one sparse view of the rows keeps the numbering"""
+    g = M.find_func(tree, "_build_links")
+    M.replace_stmt(g, lambda s: isinstance(s, ast.For) and M.src_is(s.iter, "enumerate(matrix)"), lambda s: M.stmts("rows = [list(row) for row in matrix]") + [s])
+    M.replace_expr(g, lambda e: M.src_is(e, "enumerate(matrix)"), M.expr("enumerate(rows)"))
+
+
 def _t_reformat(tree):
     pass
 
@@ -324,6 +361,8 @@ VARIANTS = [
     M.Variant("input matrix sorted in place", DLX, _v_matrix_mutated, "C07-O5"),
     M.Variant("secondary headers also linked into the primary ring", DLX, _v_secondary_in_primary, "C07-O4"),
     M.Variant("find_all OPTIMAL although max_solutions cut fired", DLX, _v_optimal_with_cut, "C07-O6"),
+    M.Variant("all-zero rows dropped before the rows are numbered (seed C07-C)", DLX, _v_rows_renumbered, "C07-O4"),
+    M.Variant("twin: rows numbered over a one-to-one copy of the matrix", DLX, _t_rows_sparse_view, None),
     M.Variant("twin: reformat", DLX, _t_reformat, None),
     M.Variant("twin: rename walk variable", DLX, _t_rename, None),
     M.Variant("twin: commuting statements of the relink swapped", DLX, _t_swap_commuting, None),
